@@ -8,8 +8,6 @@ import simplejson as json
 import os
 import time
 import logging
-import traceback
-import sys
 
 from oslo_config import cfg
 
@@ -77,7 +75,12 @@ class DefaultHandler(BaseHandler):
                 msg_file_name = "%s.msg" % time.time()
             # store the message sequence
             self.msg_sequence[peer_addr] = last_msg_seq + 1
+            torn_tail = DefaultHandler.scan_msg_file(msg_path + msg_file_name)[1]
             msg_file = open(os.path.join(msg_path, msg_file_name), 'a')
+            if torn_tail:
+                # the last write was cut short (crash): the next record must
+                # start on a line of its own
+                msg_file.write('\n')
             msg_file.flush()
             self.peer_files[peer_addr] = (msg_path, msg_file)
             LOG.info('BGP message file %s', msg_file_name)
@@ -96,25 +99,40 @@ class DefaultHandler(BaseHandler):
             return last_seq, None
         file_list.sort()
         msg_file_name = file_list[-1]
-        try:
-            with open(msg_path + msg_file_name, 'r') as fh:
-                line = None
-                for line in fh:
-                    pass
-                last = line
-                if line:
-                    if last.startswith('['):
-                        last_seq = eval(last)[1]
-                    elif last.startswith('{'):
-                        last_seq = json.loads(last)['seq']
-        except OSError:
-            LOG.error('Error when reading bgp message files')
-        except Exception as e:
-            LOG.debug(traceback.format_exc())
-            LOG.error(e)
-            sys.exit()
+        # the newest file may be empty (it was just rotated) or end in a line
+        # that a crash cut short: the last complete record is then further back
+        for file_name in reversed(file_list):
+            seq = DefaultHandler.scan_msg_file(msg_path + file_name)[0]
+            if seq is not None:
+                last_seq = seq
+                break
 
         return last_seq, msg_file_name
+
+    @staticmethod
+    def scan_msg_file(file_path):
+        """
+        Read one message file. Returns the sequence number of its last complete
+        record (None if there is none) and whether the file ends in the middle
+        of a line.
+        """
+        last_seq = None
+        torn_tail = False
+        try:
+            with open(file_path, 'r') as fh:
+                for line in fh:
+                    torn_tail = not line.endswith('\n')
+                    try:
+                        if line.startswith('['):
+                            last_seq = eval(line)[1]
+                        elif line.startswith('{'):
+                            last_seq = json.loads(line)['seq']
+                    except Exception:
+                        # not a complete record (torn write): keep the last good one
+                        LOG.error('Incomplete record in bgp message file %s', file_path)
+        except OSError:
+            LOG.error('Error when reading bgp message files')
+        return last_seq, torn_tail
 
     def write_msg(self, peer, timestamp, msg_type, msg):
         """
